@@ -340,7 +340,10 @@ def talkpagename_fn(
         return ctx.NAMESPACE_DATA["Talk"]["name"] + ":" + ctx.title
     else:
         prefix = ctx.title[:ofs]
-        if prefix not in ctx.NAMESPACE_DATA:
+        if (
+            prefix not in ctx.NAMESPACE_DATA
+            or prefix + " talk" not in ctx.NAMESPACE_DATA
+        ):
             return ctx.NAMESPACE_DATA["Talk"]["name"] + ":" + ctx.title
         return (
             ctx.NAMESPACE_DATA[prefix + " talk"]["name"]
@@ -393,7 +396,7 @@ def talkspace_fn(
     implementation is very minimal."""
     t = expander(args[0]) if args else ctx.title or "ERROR_NAMESPACE"
     for prefix in ctx.NAMESPACE_DATA:
-        if t.startswith(prefix + ":"):
+        if t.startswith(prefix + ":") and prefix + " talk" in ctx.NAMESPACE_DATA:
             return ctx.NAMESPACE_DATA[prefix + " talk"]["name"]
     return ctx.NAMESPACE_DATA["Talk"]["name"]
 
